@@ -133,6 +133,21 @@ class C09(Check):
                                 f"used positions {used} as an in-order subsequence")
                         break
                     j += 1
+                # ... and, more precisely, the choice the agent made *for that batch*: the value of the latest policy call that
+                # had returned when the sampler was designated (bootstrap designations excluded)
+                latest = None
+                n_boot = first_done + 1
+                seen_next = 0
+                for kind, val in sim.timeline:
+                    if kind == "policy":
+                        latest = val
+                    else:
+                        seen_next += 1
+                        if seen_next > n_boot and latest is not None and val != latest and not res.violations:
+                            res.add("rl-not-latest-choice", "stale-action",
+                                    f"designation #{seen_next} picked sampler #{val} while the agent's most recent choice at that moment was #{latest} "
+                                    f"(policy values {sim.policy_log}, designated {[v for k2, v in sim.timeline if k2 == 'next']})")
+                            break
                 for b in sim.batches:
                     if b.pos is None or b.pos >= n_s:
                         res.add("rl-sampler-set", "foreign", f"a batch was produced by a sampler that is not in scheduler.samplers ({b.cls})")
